@@ -232,6 +232,11 @@ pub enum FOp {
     IsEmpty,
     /// a fresh `fields()` iterator advanced from the given ends (then dropped)
     Walk(Vec<End>),
+    /// lookup with a key that is a sub-slice (`cut` picks start and end) of a field name borrowed from the
+    /// twin frame received on the same connection - same allocation, other length (`get`: and removal)
+    SliceOfOwnName { which: u16, cut: u16, remove: bool },
+    /// `get` with a key whose `as_ref()` panics on its n-th call (panic contained): the frame stays as it was
+    GetWithPanickingKey(u8),
     /// two `fields()` iterators alive at the same time, advanced alternately (`turns`: false = first,
     /// true = second), with the shared-reference queries find / fields_len / is_empty made in between
     /// (what `frame.fields().zip(frame.fields().skip(1))` or a lookup inside a loop over the fields do)
@@ -291,7 +296,9 @@ fn key_candidates(frame: &AFrame) -> Vec<String> {
 
 pub fn check_frame(case: &FrameCase) -> CaseResult {
     let mut r = CaseResult::new();
-    let bytes = wire::encode(&[AResp::Single(case.frame.clone())]).bytes;
+    // the same frame twice on one connection: the second copy (`twin`) is never modified; its field
+    // names are the connection's interned names, the very allocations the frame under test uses too
+    let bytes = wire::encode(&[AResp::Single(case.frame.clone()), AResp::Single(case.frame.clone())]).bytes;
     let mut resps = match parse_all(&bytes) {
         Ok(v) => v,
         Err(e) => {
@@ -299,10 +306,11 @@ pub fn check_frame(case: &FrameCase) -> CaseResult {
             return r;
         }
     };
-    if resps.len() != 1 {
-        r.fail(format!("{} responses parsed from one", resps.len()));
+    if resps.len() != 2 {
+        r.fail(format!("{} responses parsed from two", resps.len()));
         return r;
     }
+    let twin: Option<Frame> = resps.pop().unwrap().into_single_frame().ok();
     let mut frame: Frame = match resps.pop().unwrap().into_single_frame() {
         Ok(f) => f,
         Err(e) => {
@@ -401,6 +409,57 @@ pub fn check_frame(case: &FrameCase) -> CaseResult {
                 if removed && f && b {
                     both_ends_after_removal = true;
                 }
+            }
+            FOp::SliceOfOwnName { which, cut, remove } => {
+                let Some(tw) = twin.as_ref() else { continue };
+                let names: Vec<&str> = tw.fields().map(|(k, _)| k).collect();
+                if names.is_empty() {
+                    continue;
+                }
+                let name = names[pick_idx(*which, names.len())];
+                // prefixes (incl. the empty one and the whole name), and now and then a suffix
+                let (a, b) = match cut % 4 {
+                    0 => (0, 0),
+                    1 => (0, name.len()),
+                    2 => (0, (*cut as usize / 4) % (name.len() + 1)),
+                    _ => ((*cut as usize / 4) % (name.len() + 1), name.len()),
+                };
+                let (Some(key), true) = (name.get(a..b), name.is_char_boundary(a) && name.is_char_boundary(b)) else { continue };
+                r.class("key_is_slice_of_interned_name");
+                let want = m.live().find(|(kk, _)| kk == key).map(|(_, v)| v.clone());
+                if *remove {
+                    let got = frame.get(key);
+                    if got != want {
+                        bail!("op {i} get({key:?}) with the key a slice of the interned name {name:?} = {got:?}, model {want:?}");
+                    }
+                    if want.is_some() {
+                        let pos = m.fields.iter().position(|f| f.as_ref().is_some_and(|(kk, _)| kk == key)).unwrap();
+                        m.fields[pos] = None;
+                        removed = true;
+                    }
+                } else if frame.find(key) != want.as_deref() {
+                    bail!("op {i} find({key:?}) with the key a slice of the interned name {name:?} = {:?}, model {want:?}", frame.find(key));
+                }
+            }
+            FOp::GetWithPanickingKey(n) => {
+                struct Bomb<'a>(&'a str, std::cell::Cell<u8>);
+                impl AsRef<str> for Bomb<'_> {
+                    fn as_ref(&self) -> &str {
+                        if self.1.get() == 0 {
+                            std::panic::resume_unwind(Box::new("harness: key gives up"));
+                        }
+                        self.1.set(self.1.get() - 1);
+                        self.0
+                    }
+                }
+                // a key no field has, so a scan that survives removes nothing
+                let before = frame.fields_len();
+                let _ = crate::core::catch(|| frame.get(Bomb("no-such-key", std::cell::Cell::new(*n))));
+                let _ = crate::core::catch(|| frame.find(Bomb("no-such-key", std::cell::Cell::new(*n))));
+                if frame.fields_len() != before || frame.fields_len() != m.live().count() {
+                    bail!("op {i}: after a get() whose key panicked in as_ref() (call {n}, contained) the frame has {} fields, it had {before}", frame.fields_len());
+                }
+                r.class("lookup_key_panicked");
             }
             FOp::Walk2 { a, b, turns, probe } => {
                 let mut models: [VecDeque<&(String, String)>; 2] = [m.live().collect(), m.live().collect()];
@@ -745,6 +804,8 @@ fn fop() -> impl Strategy<Value = FOp> {
         2 => Just(FOp::FieldsLen),
         1 => Just(FOp::IsEmpty),
         4 => prop::collection::vec(end(), 0..16usize).prop_map(FOp::Walk),
+        3 => (any::<u16>(), any::<u16>(), any::<bool>()).prop_map(|(which, cut, remove)| FOp::SliceOfOwnName { which, cut, remove }),
+        1 => (0..20u8).prop_map(FOp::GetWithPanickingKey),
         2 => (prop::collection::vec(end(), 0..8usize), prop::collection::vec(end(), 0..8usize), prop::collection::vec(any::<bool>(), 0..16usize), any::<u16>())
             .prop_map(|(a, b, turns, probe)| FOp::Walk2 { a, b, turns, probe }),
         1 => Just(FOp::RefIter),
